@@ -177,16 +177,30 @@ func hasCaseVariantKey(spec *gen.TypeSpec, doc []byte) bool {
 	return false
 }
 
-// DecWitnesses: id -> func() (stillFails bool, detail string); filled by package dec.
-var DecWitnesses = map[string]func() (bool, string){}
+// Witnesses is the registry of known-finding witnesses: id -> func() (stillFails bool, detail string).
+// Packages enc and dec and the check packages register into it.
+var Witnesses = map[string]func() (bool, string){}
 
-// RunDecWitness runs the witness named by the environment if it is a decoder-side one.
-func RunDecWitness() bool {
-	f, ok := DecWitnesses[rt.E.Witness]
+// DecWitnesses is the same registry (kept for the decoder-side packages).
+var DecWitnesses = Witnesses
+
+// RunWitness runs the witness named by the environment.  A witness that is not registered in this
+// check's binary is reported as not reproducing (the finding then stays inactive in this check).
+func RunWitness() {
+	f, ok := Witnesses[rt.E.Witness]
 	if !ok {
-		return false
+		rt.WitnessResult(false, "witness not registered in this check")
+		return
 	}
 	still, detail := f()
 	rt.WitnessResult(still, detail)
+}
+
+// RunDecWitness is kept for compatibility: it runs the witness if registered.
+func RunDecWitness() bool {
+	if _, ok := Witnesses[rt.E.Witness]; !ok {
+		return false
+	}
+	RunWitness()
 	return true
 }
